@@ -194,6 +194,217 @@ def restrict_worker(job):
         case.cleanup()
 
 
+def collision_worker(job):
+    """limits placed EXACTLY on peptides that are canonical: a preliminary run tells which peptides
+    the command reports; up to three of them (ending in K / R, trypsin) are made canonical by
+    synthetic proteome entries without an annotated transcript — one as the N-terminal product
+    behind the start methionine (`M` + q: the Met-removed form is q, the form with M is one residue
+    longer), the others as internal products.  Then max_length = |q| vs |q| + 1 / + 4 and
+    min_length = |q| vs |q| - 1 / - 2: the run with the stricter limit must be contained in the
+    relaxed one (the canonical products within the strict limit are canonical under the relaxed one
+    too, see Props.C05.callVariant_mono_limits_partial)."""
+    from . import cv_explore
+    seed, tier = job
+    rng = random.Random(seed)
+    out = {'stats': {}, 'violations': [], 'seed': seed, 'pairs': []}
+    case = gen_ref.Case(gen_ref.work_dir('c05col'))
+    try:
+        with gen_ref.quiet():
+            gen_ref.make_reference(case, seed, 1)
+            genome, anno, _ = gen_ref.load_reference(case)
+            tx_id = list(anno.transcripts.keys())[0]
+            recs = gen_ref.dense_variants(anno, genome, tx_id, rng, rng.randint(2, 6), max_size=4, window=60)
+            gen_ref.write_gvfs(case, recs)
+        if not case.gvfs:
+            return out
+        kw = cv_explore.default_kw(rng, False, None)
+        kw['max_length'] = 30
+        kw['min_length'] = 6
+        pre = gen_ref.run_call_variant(case, tag='pre', **kw)
+        if pre.status != 'ok':
+            out['stats']['baseline_crash'] = 1
+            return out
+        cand = sorted(q for q in pre.fasta if q[-1] in 'KR' and 'X' not in q and '*' not in q
+                      and 8 <= len(q) <= 24 and not q.startswith('M'))
+        if not cand:
+            out['stats']['no_candidate'] = 1
+            return out
+        picks = rng.sample(cand, min(3, len(cand)))
+        with open(case.proteome, 'at') as fh:
+            for n_, q in enumerate(picks):
+                body = ('M' + q) if n_ == 0 else ('MAGGSK' + q)
+                fh.write(f'>COLLP{n_}|COLLT{n_}|COLLG{n_}|XXX\n{body}AAGGSAAGGSR\n')
+        out['stats']['runs'] = 1
+        out['desc'] = {'seed': seed, 'made_canonical': picks, 'n_terminal': picks[0]}
+        for q in picks:
+            n = len(q)
+            for what, strict, relaxed in (
+                    ('max_length', dict(max_length=n), dict(max_length=n + 1)),
+                    ('max_length', dict(max_length=n), dict(max_length=n + 4)),
+                    ('min_length', dict(min_length=n), dict(min_length=n - 1)),
+                    ('min_length', dict(min_length=n), dict(min_length=n - 2))):
+                a = gen_ref.run_call_variant(case, tag='s', **dict(kw, **strict))
+                b = gen_ref.run_call_variant(case, tag='r', **dict(kw, **relaxed))
+                out['pairs'].append({'q': q, 'what': what, 'strict': strict, 'relaxed': relaxed,
+                                     'status': (a.status, b.status),
+                                     'strict_real': sorted(a.fasta) if a.status == 'ok' else [],
+                                     'relaxed_real': sorted(b.fasta) if b.status == 'ok' else []})
+        return out
+    except Exception:   # noqa
+        out['stats']['worker_error'] = 1
+        out['error'] = traceback.format_exc()[-1200:]
+        return out
+    finally:
+        case.cleanup()
+
+
+def as_twin_worker(job):
+    """two alternative-splicing insertions of ONE transcript with the same anchor and the same donor
+    start but different donor ends (two alternative splice sites of one retained stretch), under
+    their own ids, plus 0-3 small records: the run with one of them (one file) and the runs with
+    both (one file / two files in either order) — adding the second record or its file may only
+    add peptides."""
+    import copy as _copy
+    import random as _r
+    seed, tier = job
+    rng = random.Random(seed)
+    out = {'stats': {}, 'seed': seed, 'runs': {}}
+    case = gen_ref.Case(gen_ref.work_dir('c05tw'))
+    try:
+        from moPepGen import fake as _fake
+        with gen_ref.quiet():
+            gen_ref.make_reference(case, seed, 1)
+            genome, anno, _ = gen_ref.load_reference(case)
+        tx_id = list(anno.transcripts.keys())[0]
+        if len(anno.transcripts[tx_id].exon) < 3:
+            out['stats']['too_few_exons'] = 1
+            return out
+        a0 = None
+        _r.seed(rng.randrange(1 << 30))
+        for _ in range(6):
+            try:
+                with gen_ref.quiet():
+                    a0 = _fake.fake_intron_insertion(anno, genome, tx_id, 'RI')
+                break
+            except Exception:   # noqa
+                a0 = None
+        if a0 is None:
+            out['stats']['no_insertion'] = 1
+            return out
+        ds, de = int(a0.attrs['DONOR_START']), int(a0.attrs['DONOR_END'])
+        k = rng.randint(1, 7)
+        if de - ds <= k + 3:
+            out['stats']['stretch_too_short'] = 1
+            return out
+        twin = _copy.deepcopy(a0)
+        twin.attrs['DONOR_END'] = de - k
+        twin.id = f'{a0.id}-ALT{k}'
+        with gen_ref.quiet():
+            small = gen_ref.dense_variants(anno, genome, tx_id, rng, rng.randint(0, 3), max_size=3, window=80)
+        out['desc'] = {'seed': seed, 'tx': tx_id, 'first': a0.id, 'second': twin.id,
+                       'donor': [ds, de], 'second_donor_end': de - k, 'small': [r.id for r in small]}
+        first, second = (a0, twin) if rng.random() < 0.5 else (twin, a0)
+        out['desc']['base_record'] = first.id
+        layouts = {'one': ([first] + small, None),
+                   'both-one-file': ([first, second] + small, None),
+                   'both-two-files': ([first, second] + small, [[0] + list(range(2, 2 + len(small))), [1]]),
+                   'both-two-files-reversed': ([second, first] + small, [[0], [1] + list(range(2, 2 + len(small)))])}
+        for name, (recs, layout) in layouts.items():
+            with gen_ref.quiet():
+                gen_ref.write_gvfs(case, recs, layout=layout)
+            r = gen_ref.run_call_variant(case, tag=name.replace('-', '_'))
+            out['runs'][name] = {'status': r.status, 'real': sorted(r.fasta) if r.status == 'ok' else []}
+        out['stats']['runs'] = 1
+        return out
+    except Exception:   # noqa
+        out['stats']['worker_error'] = 1
+        out['error'] = traceback.format_exc()[-1200:]
+        return out
+    finally:
+        case.cleanup()
+
+
+def as_twin_stream(ctx, n_jobs, stream='as-records-sharing-anchor-and-donor-start'):
+    jobs = [(ctx.rng('twjob', i).randrange(1 << 30), ctx.tier) for i in range(n_jobs)]
+    with mp.get_context('fork').Pool(14) as pool:
+        res = pool.map(as_twin_worker, jobs)
+    stats = {}
+    for r, job in zip(res, jobs):
+        for k, v in r['stats'].items():
+            stats[k] = stats.get(k, 0) + v
+        if 'error' in r:
+            ctx.coverage.setdefault('worker_errors', []).append(r['error'])
+        if not r['runs']:
+            continue
+        one = r['runs']['one']
+        if one['status'] != 'ok':
+            continue
+        base = set(one['real'])
+        for name, rr in r['runs'].items():
+            if name == 'one':
+                continue
+            ctx.count(stream, 'pairs')
+            ctx.evaluated(stream, f"{r['seed']}:{name}", bool(set(rr['real']) - base), dict(r['desc'], pair=name))
+            if rr['status'] != 'ok':
+                ctx.add_violation(f'callVariant fails ({rr["status"]}) when a second splicing record with the same anchor '
+                                  f'and donor start is supplied ({name})', dict(r['desc'], kind='as-twin', pair=name))
+                continue
+            lost = base - set(rr['real'])
+            if lost:
+                def _ok(o, name=name):
+                    return not (set(o['runs']['one']['real']) - set(o['runs'][name]['real']))
+                flaky = cv_checks.relation_flaky(as_twin_worker, job, _ok)
+                ctx.add_violation(
+                    f'adding the record {r["desc"]["second"] if r["desc"]["base_record"] == r["desc"]["first"] else r["desc"]["first"]} '
+                    f'({name}) removed {len(lost)} peptide(s) of the record {r["desc"]["base_record"]}, e.g. {sorted(lost)[:3]}',
+                    dict(r['desc'], kind='as-twin', pair=name, lost=sorted(lost)[:20]),
+                    finding_key=cv_checks.KF_NONDET if flaky else None)
+    ctx.coverage.setdefault('worker_stats_extra', {})[stream] = stats
+    shutil.rmtree(gen_ref.WORK, ignore_errors=True)
+
+
+def collision_stream(ctx, n_jobs, stream='canonical-on-the-limit'):
+    jobs = [(ctx.rng('coljob', i).randrange(1 << 30), ctx.tier) for i in range(n_jobs)]
+    with mp.get_context('fork').Pool(14) as pool:
+        res = pool.map(collision_worker, jobs)
+    stats = {}
+    for r, job in zip(res, jobs):
+        for k, v in r['stats'].items():
+            stats[k] = stats.get(k, 0) + v
+        if 'error' in r:
+            ctx.coverage.setdefault('worker_errors', []).append(r['error'])
+        if not r['pairs']:
+            continue
+        ctx.evaluated(stream, str(r['seed']), True, r.get('desc'))
+        reported = 0
+        for pr in r['pairs']:
+            ctx.count(stream, pr['what'] + '_pairs')
+            if pr['status'] != ('ok', 'ok'):
+                ctx.add_violation(f'paired run ({pr["what"]} {pr["strict"]} -> {pr["relaxed"]}) crashed: {pr["status"]}',
+                                  dict(r['desc'], kind='canonical-on-the-limit', pair=pr))
+                continue
+            lost = set(pr['strict_real']) - set(pr['relaxed_real'])
+            if len(pr['relaxed_real']) > len(pr['strict_real']):
+                ctx.count(stream, 'pairs_with_added_peptides')
+            if lost and reported < 2:
+                reported += 1
+
+                def _ok(o, pr=pr):
+                    for p2 in o['pairs']:
+                        if p2['q'] == pr['q'] and p2['strict'] == pr['strict'] and p2['relaxed'] == pr['relaxed']:
+                            return not (set(p2['strict_real']) - set(p2['relaxed_real']))
+                    return False
+                flaky = cv_checks.relation_flaky(collision_worker, job, _ok)
+                ctx.add_violation(
+                    f'relaxing {pr["what"]} {pr["strict"]} -> {pr["relaxed"]} removed peptide(s) {sorted(lost)[:3]} '
+                    f'(proteome entries make {r["desc"]["made_canonical"]} canonical; {pr["q"]} lies exactly on the strict limit)',
+                    dict(r['desc'], kind='canonical-on-the-limit', pair={k: pr[k] for k in ('q', 'what', 'strict', 'relaxed')},
+                         lost=sorted(lost)[:20]),
+                    finding_key=cv_checks.KF_NONDET if flaky else None)
+    ctx.coverage.setdefault('worker_stats_extra', {})[stream] = stats
+    shutil.rmtree(gen_ref.WORK, ignore_errors=True)
+
+
 def run(ctx: common.Ctx):
     ctx.coverage['rule'] = (
         'paired REAL runs on generated inputs: (a) same input under a configuration and a relaxed one '
@@ -261,6 +472,8 @@ def run(ctx: common.Ctx):
     cv_checks.fusion_pairs(ctx, ctx.n(40, 600))
     cv_checks.fusion_dense_stream(ctx, ctx.n(48, 600))
     cv_checks.circ_same_site_stream(ctx, ctx.n(90, 1000))
+    collision_stream(ctx, ctx.n(28, 500))
+    as_twin_stream(ctx, ctx.n(42, 600))
     n = ctx.n(30, 400)
     jobs = [(ctx.rng('rjob', i).randrange(1 << 30), ctx.tier) for i in range(n)]
     with mp.get_context('fork').Pool(14) as pool:
